@@ -480,7 +480,9 @@ def _decorate_namespace_property(
             contract_checker.__postconditions__ = postconditions  # type: ignore
 
     if fget != value.fget or fset != value.fset or fdel != value.fdel:
-        namespace[key] = property(fget=fget, fset=fset, fdel=fdel)
+        namespace[key] = icontract._checkers.recreate_property(
+            a_property=value, fget=fget, fset=fset, fdel=fdel
+        )
 
 
 def _dbc_decorate_namespace(
